@@ -15,6 +15,8 @@ down here):
   AND the one accepted by the live `read_with_context` of those three types, determined from the bytes
   written for probe values and from what is read back from reference byte strings
   (1 / 0 = the two formats, 2 = neither).
+* `<class>Bytes` — for every known version the bytes the live `write_fields` of each hand-written class
+  produces for a fixed sample packet, and the bytes it produces for what the live `read` made of them.
 * `<class><Send|Read>` spy tables — for every known version the set of version comparisons
   (`protocol_earlier`, `…_eq`, `protocol_later`, `…_eq`, `protocol_in_range`, with their arguments and
   results) that the live `write_fields` resp. `read` of each hand-written class performs on a sample
@@ -103,7 +105,8 @@ def registry():
         for pv in minecraft.KNOWN_PROTOCOL_VERSIONS:
             ctx = ConnectionContext(protocol_version=pv)
             ents = []
-            for cls in gp(ctx):
+            # a set: iterate in a fixed order so that the numbering of `codecs` is reproducible
+            for cls in sorted(gp(ctx), key=lambda c: (c.__name__, c.__module__)):
                 try:
                     i = cls.get_id(ctx)
                 except Exception:
@@ -311,7 +314,7 @@ def hand_samples():
     def mk_spawn(ctx):
         p = P.SpawnObjectPacket(ctx)
         p.entity_id, p.object_uuid, p.type_id = 1, uuid, 5
-        p.x, p.y, p.z, p.pitch, p.yaw, p.data = 1, 2, 3, 0, 0, 1
+        p.x, p.y, p.z, p.pitch, p.yaw, p.data = 1, 2, 3, 90, 180, 1
         p.velocity_x, p.velocity_y, p.velocity_z = 1, 2, 3
         return p
 
@@ -375,6 +378,37 @@ def spy_tables():
     return out
 
 
+def bytes_tables():
+    """-> [(lean name, class name, [variants (written, re-written)], [(pv, variant index)])]:
+    the bytes the live write_fields produces for the sample packet under every known version (None: it
+    raised), and the bytes the live write_fields produces for what the live read made of them (None:
+    read raised, left bytes unread, or the second write raised)"""
+    import minecraft
+    from minecraft.networking.connection import ConnectionContext
+    out = []
+    for key, cls, mk in hand_samples():
+        var, rows = [], []
+        for pv in minecraft.KNOWN_PROTOCOL_VERSIONS:
+            ctx = ConnectionContext(protocol_version=pv)
+            w = _written(lambda pb: mk(ctx).write_fields(pb))
+            rw = None
+            if w is not None:
+                try:
+                    q = cls(ctx)
+                    pb = _buf(w)
+                    q.read(pb)
+                    if pb.read() == b'':
+                        rw = _written(lambda pb2: q.write_fields(pb2))
+                except Exception:
+                    rw = None
+            v = (w, rw)
+            if v not in var:
+                var.append(v)
+            rows.append((pv, var.index(v)))
+        out.append((key + 'Bytes', cls.__name__, var, rows))
+    return out
+
+
 # ------------------------------------------------------------------ rendering
 
 def render():
@@ -424,6 +458,16 @@ def render():
         vs = ',\n'.join('    [%s]' % ', '.join('(%d, %d, %d, %s)' % (k, a, b, 'true' if r else 'false')
                                                  for k, a, b, r in log) for log in var)
         o.append('def %s : SpyTable where\n  cls := %s\n  variants := [\n%s\n  ]\n  rows := [%s]\n' % (
+            lname, lean_str(cname), vs, ', '.join('(%d, %d)' % r for r in rws)))
+    def ob(b):
+        return 'none' if b is None else 'some [%s]' % ', '.join('0x%02x' % x for x in b)
+    o.append('/-- the bytes written by the live write_fields for the sample packet (`none`: it raised), and the bytes the')
+    o.append('live write_fields produces for what the live read made of them; per known protocol version the index -/')
+    o.append('structure BytesTable where\n  cls : String\n  variants : List (Option Bytes × Option Bytes)\n'
+             '  rows : List (Nat × Nat)\n')
+    for lname, cname, var, rws in bytes_tables():
+        vs = ',\n'.join('    (%s,\n     %s)' % (ob(w), ob(rw)) for w, rw in var)
+        o.append('def %s : BytesTable where\n  cls := %s\n  variants := [\n%s\n  ]\n  rows := [%s]\n' % (
             lname, lean_str(cname), vs, ', '.join('(%d, %d)' % r for r in rws)))
     o.append('end PyCraft.Gen.C05D\n')
     return '\n'.join(o)
